@@ -126,6 +126,24 @@ func c03NameBuffers(c *Ctx, r *Report, rule string) {
 					}
 					k, isK := constIntOf(mk.Len)
 					if !isK {
+						// sized from a name: it has to be the very string that is packed into it
+						name := ci.Common().Args[0]
+						for v := range sliceOf(mk.Len) {
+							call, ok := v.(*ssa.Call)
+							if !ok || len(call.Call.Args) == 0 {
+								continue
+							}
+							cn2 := calleeNameSSA(&call.Call)
+							if cn2 != "domainNameLen" && cn2 != "builtin.len" {
+								continue
+							}
+							if _, isStr := call.Call.Args[0].Type().Underlying().(*types.Basic); !isStr {
+								continue
+							}
+							n++
+							r.fn(fnDisplay(sub))
+							r.check(call.Call.Args[0] == name, rule, fmt.Sprintf("%s:name-buffer#%d", fnDisplay(sub), n), c.pos(mk.Pos()), "sized from the name packed", "the buffer is sized from %s but %s is packed into it: when the two differ in length (a relative name made absolute gains a dot) the name does not fit and packing fails with 'buffer size too small' for a value that is fine", describeValue(call.Call.Args[0]), describeValue(name))
+						}
 						continue
 					}
 					n++
